@@ -137,6 +137,11 @@ func (r *Registry) RegisterNativeModule(name string, loader ModuleLoader) {
 
 // DefaultSourceLoader is used if none was set (see WithLoader()). It simply loads files from the host's filesystem.
 func DefaultSourceLoader(filename string) ([]byte, error) {
+	// Only regular files are module files. Opening a FIFO blocks until somebody writes to it, reading a device such
+	// as /dev/zero never ends: require() of such a name would hang (or eat all memory) instead of failing.
+	if fi, err := os.Stat(filename); err == nil && !fi.Mode().IsRegular() && !fi.IsDir() {
+		return nil, ModuleFileDoesNotExistError
+	}
 	f, err := os.Open(filename)
 	if err != nil {
 		if errors.Is(err, fs.ErrNotExist) {
